@@ -1320,7 +1320,7 @@ _pattern.define(
         | LITERAL
         | brackets(many(_pattern | unpack("iterable")))
         | in_tuple(many(_pattern | unpack("iterable")))
-        | pexpr(keepsym("."), many(SYM))
+        | pexpr(keepsym("."), times(2, Inf, SYM))
         | pexpr(keepsym("|"), many(_pattern))
         | braces(many(LITERAL + _pattern), maybe(pvalue("unpack-mapping", SYM)))
         | pexpr(
